@@ -154,6 +154,11 @@ Definition projQ : Matc :=
 Definition projected_choi (Ch : Matc) : Matc := mmul Op (d * d) (mmul Op (d * d) projQ Ch) projQ.
 Definition liouville_is_cCP (atol : T) (D : list T) : T := psd_flag (eff_atol atol D) D.
 
+(* broadcasting over leading axes: D has shape (..., d^2), tol = .. .max(axis=-1, keepdims=True) has shape
+   (..., 1) and .all(axis=-1) reduces the last axis only: one threshold and one verdict per map *)
+Definition liouville_is_CP_stack (atol : T) (Ds : list (list T)) : list T := map (liouville_is_CP atol) Ds.
+Definition liouville_is_cCP_stack (atol : T) (Ds : list (list T)) : list T := map (liouville_is_cCP atol) Ds.
+
 (* ---------------------------------------------------------------------------------------------
    The cached Liouville total propagator of a pulse (pulse_sequence.py).  Only the two slots that
    matter: `_total_propagator` (always known here) and `_total_propagator_liouville`.            *)
